@@ -17,7 +17,8 @@ EXPLANATION = (
     "(180/pi*atan2(b1,a1)) mod 360, z0 = alpha*u*^2/g + where(u*>0, c*nu/u*, 0), U10 = u*/kappa*ln(10/z0), "
     "coming-from/clockwise-north = (270 - direction) mod 360, other literal -> identity, anything else raises; the "
     "caller's parameters land in the right slots of friction_velocity; a 2-D input is first reduced with "
-    "as_frequency_spectrum(). Not decided: the f^-4 exactness claim of the mean method and the scaling relations."
+    "as_frequency_spectrum(). Mean method (R12.5): clipped windows of number_of_bins bins of E*f^power, criterion = squared coefficient of variation (level-free), one slot per window, selection argmin + scan start, e/a1/b1 = mean over the selected bins. "
+    "Not decided: that floating point selects exactly c for a c*f^-4 range, and the scaling relations."
 )
 
 
